@@ -216,6 +216,9 @@ type job struct {
 	DetFrom  int64    `json:"det_from"`
 	DetTo    int64    `json:"det_to"`
 	Deadline int64    `json:"deadline_s"`
+	RecordAll bool    `json:"record_all,omitempty"`
+	Repeat    int     `json:"repeat,omitempty"`
+	NoRecords bool    `json:"no_records,omitempty"`
 	Reverse  bool     `json:"reverse,omitempty"`
 	Known    []string `json:"known,omitempty"`
 	MaxViol  int      `json:"max_violation_records"`
@@ -229,6 +232,7 @@ type workerResult struct {
 	summary  map[string]any
 	records  []map[string]any
 	replay   map[string]any
+	dumps    []map[string]any
 	finished bool
 }
 
@@ -261,6 +265,8 @@ func runWorker(worker, dir string, idx int, j job, procs int, race bool) *worker
 			r.finished = true
 		case "violation":
 			r.records = append(r.records, m["record"].(map[string]any))
+		case "rundump":
+			r.dumps = append(r.dumps, m["record"].(map[string]any))
 		case "replay":
 			r.replay = m
 			r.finished = true
@@ -298,6 +304,10 @@ func num(m map[string]any, k string) int64 {
 	}
 	switch v := m[k].(type) {
 	case float64:
+		return int64(v)
+	case int64:
+		return v
+	case int:
 		return int64(v)
 	case json.Number:
 		n, err := v.Int64()
@@ -395,9 +405,13 @@ func check(id, tier string, keep bool, runsOverride, secsOverride int64) int {
 	}
 	nsearch := len(jobs)
 	// determinism probes: the first detN runs again, in separate processes, at other GOMAXPROCS
-	for _, p := range []int{1, 4, 16} {
-		jobs = append(jobs, job{Mode: "search", Tier: tier, Seed: seed, From: 0, To: detN, Deadline: secs, Known: append(knownSigs, "*"), MaxViol: 0,
-			DetFrom: 0, DetTo: detN, Reverse: p == 4})
+	detProcs := []int{1, 4, 16}
+	if sp.Race {
+		detProcs = []int{1, 1, 2} // spin hand-off: more Ps only burn CPU
+	}
+	for pi, p := range detProcs {
+		jobs = append(jobs, job{Mode: "search", Tier: tier, Seed: seed, From: 0, To: detN, Deadline: secs, NoRecords: true,
+			DetFrom: 0, DetTo: detN, Reverse: pi == 1})
 		jprocs = append(jprocs, p)
 	}
 	results := make([]*workerResult, len(jobs))
@@ -510,12 +524,37 @@ func check(id, tier string, keep bool, runsOverride, secsOverride int64) int {
 		recs := bySig[sig]
 		sort.SliceStable(recs, func(i, j int) bool { return recSize(recs[i]) < recSize(recs[j]) })
 		best := recs[0]
+		if need, _ := best["_needs_record"].(bool); need {
+			// a race/crash seen in a worker's stderr: re-run that one run in a
+			// fresh process to obtain its full record (and the report again)
+			run := num(best, "run")
+			rr := runWorker(worker, dir, 2000+violations, job{Mode: "search", Tier: tier, Seed: seed, From: run, To: run + 1, RecordAll: true, NoRecords: true, Repeat: 6}, 2, sp.Race)
+			ok := false
+			for _, e := range postProcess(sp, rr) {
+				if e["expected_signature"] == sig {
+					ok = true
+				}
+			}
+			if !ok || len(rr.dumps) == 0 {
+				fmt.Fprintf(os.Stderr, "verif: UNCONFIRMED: %q seen during run %d did not show again when that run was repeated alone in a fresh process\n%s\n", sig, run, tail(rr.stderr, 30))
+				trouble = true
+				continue
+			}
+			rec := rr.dumps[0]
+			rec["expected_signature"] = sig
+			rec["detail"] = best["detail"]
+			best = rec
+		}
 		h := sha256.Sum256([]byte(sig))
 		path := filepath.Join(verifDir, "replays", fmt.Sprintf("%s-%x-%d.json", id, h[:4], seed))
 		b, _ := json.MarshalIndent(best, "", " ")
 		os.WriteFile(path, b, 0o644)
 		// confirm in a fresh process
-		rr := runWorker(worker, dir, 1000+violations, job{Mode: "replay", File: path}, 2, sp.Race)
+		rj := job{Mode: "replay", File: path}
+		if sp.Race {
+			rj.Repeat = 6
+		}
+		rr := runWorker(worker, dir, 1000+violations, rj, 2, sp.Race)
 		extra := postProcess(sp, rr)
 		ok := false
 		if rr.replay != nil {
@@ -567,7 +606,7 @@ func check(id, tier string, keep bool, runsOverride, secsOverride int64) int {
 		"discarded_cases":     agg["discarded"],
 		"signature_counts":    sigCounts,
 		"known_findings_seen": knownSeen,
-		"determinism_selftest": map[string]any{"runs_compared": detChecked, "processes": 3, "gomaxprocs": []int{1, 4, 16}, "mismatches": detBad,
+		"determinism_selftest": map[string]any{"runs_compared": detChecked, "processes": 3, "gomaxprocs": detProcs, "mismatches": detBad,
 			"in_process_repeats_mismatch": agg["self_check_mismatch"]},
 		"components":     components,
 		"workers":        nsearch,
@@ -695,7 +734,11 @@ func replayCmd(path string) int {
 		fmt.Fprintln(os.Stderr, "verif: BUILD-TROUBLE:", err)
 		return 2
 	}
-	rr := runWorker(worker, dir, 0, job{Mode: "replay", File: abs}, 2, sp.Race)
+	rj := job{Mode: "replay", File: abs}
+	if sp.Race {
+		rj.Repeat = 6
+	}
+	rr := runWorker(worker, dir, 0, rj, 2, sp.Race)
 	extra := postProcess(sp, rr)
 	sig, _ := rec["expected_signature"].(string)
 	ok := false
@@ -727,7 +770,7 @@ func replayCmd(path string) int {
 
 // ---- race-detector / crash post-processing (C10) ---------------------------
 
-var beginRe = regexp.MustCompile(`VERIF-BEGIN run=(\d+)`)
+var beginRe = regexp.MustCompile(`VERIF-BEGIN run=(-?\d+)`)
 
 // postProcess turns race-detector reports and process crashes found in a
 // worker's stderr into violation records attributed to the run during which
